@@ -21,9 +21,82 @@ def _dec(rng, lo, hi, nd=3):
     return s
 
 
+POOLS = [
+    ["POP_CL", "POP_VC", "COVAPGR", "IIV_CL", "IIV_VC", "SIGMA"],                                   # pheno example model order
+    ["THETA(1)", "THETA(2)", "THETA(3)", "OMEGA(1,1)", "OMEGA(2,1)", "OMEGA(2,2)", "SIGMA(1,1)"],   # NONMEM order
+    ["k10", "b", "Zeta", "alpha", "V2", "CL", "x_9", "x_10"],
+]
+
+
+def pick_names(rng, p):
+    """p labels: a model-order prefix/subsequence of a pool, or an arbitrary permutation of a sample."""
+    pool = rng.choice(POOLS)
+    p = min(p, len(pool))
+    r = rng.random()
+    if r < 0.4:
+        idx = sorted(rng.sample(range(len(pool)), p))       # model order (not lexical in general)
+        return [pool[i] for i in idx]
+    names = rng.sample(pool, p)
+    if r < 0.5:
+        names.sort()
+    return names
+
+
+def maybe_perm(rng, p, prob):
+    if p < 2 or rng.random() >= prob:
+        return None
+    perm = list(range(p))
+    while perm == list(range(p)):
+        rng.shuffle(perm)
+    return perm
+
+
+def gen_expr(rng, syms, depth=0):
+    """positive-valued expression over positive symbols (so sqrt/log/division are defined)."""
+    r = rng.random()
+    if depth >= 3 or r < 0.3:
+        return ["s", rng.choice(syms)] if rng.random() < 0.8 else ["c", rng.choice(["2", "0.5", "2.5", "0.693", "10"])]
+    if r < 0.45:
+        return ["+", gen_expr(rng, syms, depth + 1), gen_expr(rng, syms, depth + 1)]
+    if r < 0.65:
+        return ["*", gen_expr(rng, syms, depth + 1), gen_expr(rng, syms, depth + 1)]
+    if r < 0.8:
+        return ["/", gen_expr(rng, syms, depth + 1), gen_expr(rng, syms, depth + 1)]
+    if r < 0.87:
+        return ["^", gen_expr(rng, syms, depth + 1), rng.choice([2, 3, -1])]
+    if r < 0.93:
+        return ["sqrt", gen_expr(rng, syms, depth + 1)]
+    if r < 0.97:
+        return ["log1p", gen_expr(rng, syms, depth + 1)]
+    return ["expm", gen_expr(rng, syms, depth + 1)]
+
+
+def gen_delta_case(rng):
+    p = rng.randint(2, 6)
+    names = pick_names(rng, p)
+    p = len(names)
+    nsym = rng.randint(1, min(4, p))
+    syms = rng.sample(names, nsym)
+    e = gen_expr(rng, syms)
+    r = rng.random()
+    if r < 0.2:
+        e = ["-", e, gen_expr(rng, syms)]
+    elif r < 0.3:
+        e = ["*", ["c", "-1.5"], e]
+    # covariance = L L^T + diag(d), built exactly from short decimals; very different scales per parameter
+    scales = [rng.choice(["0.01", "0.1", "1", "3"]) for _ in range(p)]
+    L = [[_dec(rng, -1, 1, 2) if j <= i else "0" for j in range(p)] for i in range(p)]
+    d = [_dec(rng, 0.05, 1, 2) for _ in range(p)]
+    return {"kind": "stats", "what": "delta", "names": names, "index_perm": maybe_perm(rng, p, 0.15), "expr": e,
+            "values": [_dec(rng, 0.01, 3) for _ in range(p)], "L": L, "d": d, "scales": scales,
+            "as_series": rng.random() < 0.5, "sym_shuffle": rng.randrange(1 << 20), "seed": rng.randrange(1 << 30)}
+
+
 def gen_case(rng, tier):
-    what = rng.choice(["bootstrap", "bootstrap", "cdd", "cdd", "shrink"])
+    what = rng.choice(["bootstrap", "bootstrap", "cdd", "cdd", "shrink", "delta", "delta", "delta"])
     nmax = 50
+    if what == "delta":
+        return gen_delta_case(rng)
     if what == "bootstrap":
         n, p = rng.choice([2, 3, 4, 5, 7, 10, 20, 21, 40, nmax]), rng.randint(1, 4)
         centers = [rng.choice([0.5, 2.0, -3.0, 40.0]) for _ in range(p)]
@@ -31,6 +104,8 @@ def gen_case(rng, tier):
         if rng.random() < 0.1:      # repeated replicate values (ties in the order statistics)
             cols = [[rng.choice(col[:3]) for _ in col] for col in cols]
         return {"kind": "stats", "what": what, "cols": cols, "orig": [_dec(rng, c - 1, c + 1) for c in centers],
+                "names": pick_names(rng, p), "rep_perm": [maybe_perm(rng, p, 0.3) for _ in range(n)],
+                "orig_perm": maybe_perm(rng, p, 0.5),
                 "ofvs": [_dec(rng, -50, 50, 2) for _ in range(n)], "seed": rng.randrange(1 << 30)}
     if what == "cdd":
         p = rng.randint(1, 3)
@@ -38,16 +113,28 @@ def gen_case(rng, tier):
         centers = [rng.choice([0.5, 2.0, -3.0, 40.0]) for _ in range(p)]
         cols = [[_dec(rng, c - 2, c + 2) for _ in range(n)] for c in centers]
         return {"kind": "stats", "what": what, "cols": cols, "base": [_dec(rng, c - 1, c + 1) for c in centers],
+                "names": pick_names(rng, p), "base_perm": maybe_perm(rng, p, 0.12), "cov_perm": maybe_perm(rng, p, 0.12),
                 "use_jack": rng.random() < 0.5, "drop": [rng.randrange(n) for _ in range(3)], "seed": rng.randrange(1 << 30)}
     n = rng.choice([2, 3, 5, 9, 30, nmax])
     return {"kind": "stats", "what": "shrink", "etas": [[_dec(rng, -1, 1) for _ in range(n)] for _ in range(2)],
             "omegas": [_dec(rng, 0.01, 0.5), _dec(rng, 0.01, 0.5)],
             "icov": [[_dec(rng, 0.001, 0.2), _dec(rng, 0.001, 0.2), _dec(rng, -0.02, 0.02)] for _ in range(min(n, 6))],
+            "ie_swap": rng.random() < 0.12, "pe_swap": rng.random() < 0.5,
+            "icov_swap": [rng.random() < 0.1 for _ in range(min(n, 6))],
             "seed": rng.randrange(1 << 30)}
 
 
 def corpus_cases():
     return [
+        # delta method, labels in model order (not lexical), unequal gradient / variances
+        {"kind": "stats", "what": "delta", "names": ["POP_CL", "POP_VC", "COVAPGR"], "index_perm": None,
+         "expr": ["*", ["s", "POP_VC"], ["+", ["c", "1"], ["*", ["c", "2.5"], ["s", "COVAPGR"]]]],
+         "values": ["0.005", "0.984", "0.159"], "L": [["0.1", "0", "0"], ["0.3", "0.5", "0"], ["-0.2", "0.4", "0.9"]],
+         "d": ["0.1", "0.2", "0.3"], "scales": ["0.01", "1", "0.1"], "as_series": False, "sym_shuffle": 1, "seed": 104},
+        {"kind": "stats", "what": "delta", "names": ["THETA(1)", "THETA(2)", "OMEGA(1,1)", "SIGMA(1,1)"], "index_perm": [2, 0, 3, 1],
+         "expr": ["*", ["s", "THETA(1)"], ["sqrt", ["s", "OMEGA(1,1)"]]],
+         "values": ["0.005", "1.01", "0.031", "0.013"], "L": [["0.5", "0", "0", "0"], ["0.3", "0.5", "0", "0"], ["-0.2", "0.4", "0.9", "0"], ["0.1", "0.1", "0.1", "0.1"]],
+         "d": ["0.1", "0.2", "0.3", "0.1"], "scales": ["0.01", "1", "0.1", "1"], "as_series": True, "sym_shuffle": 2, "seed": 105},
         {"kind": "stats", "what": "bootstrap", "cols": [["1.0", "1.25", "1.5", "1.75", "2.0", "2.25", "2.5"],
                                                           ["2.0", "2.5", "3.0", "0.5", "1.0", "1.5", "-1.0"]],
          "orig": ["1.5", "2.5"], "ofvs": ["0", "1", "2", "3", "4", "5", "6"], "seed": 101},
@@ -78,14 +165,30 @@ def shrink(case):
                 for key in ("orig", "base"):
                     if key in case:
                         c[key] = case[key][:j] + case[key][j + 1:]
+                for key in ("names",):
+                    if key in case:
+                        c[key] = case[key][:j] + case[key][j + 1:]
+                for key in ("rep_perm", "orig_perm", "base_perm", "cov_perm"):
+                    if key in case:
+                        c[key] = [None] * len(case[key]) if key == "rep_perm" else None
                 yield c
+    if case["what"] == "delta":
+        e = case["expr"]
+        if e[0] not in ("s", "c"):
+            for sub in e[1:]:
+                if isinstance(sub, list):
+                    yield dict(case, expr=sub)
+        if case.get("index_perm"):
+            yield dict(case, index_perm=None)
 
 
 def worker_init():
-    global np, pd, ModelfitResults, boot, cdd, mres, PHENO
+    global np, pd, ModelfitResults, boot, cdd, mres, PHENO, sympy, pmath
     _warnings.filterwarnings("ignore")
     import numpy as np  # noqa
     import pandas as pd  # noqa
+    import sympy  # noqa
+    import pharmpy.internals.math as pmath  # noqa
     import pharmpy.modeling.results as mres  # noqa
     import pharmpy.tools.bootstrap.results as boot  # noqa
     import pharmpy.tools.cdd.results as cdd  # noqa
@@ -116,7 +219,97 @@ def run_case(case, drv):
         return run_cdd(case, drv)
     if what == "shrink":
         return run_shrink(case, drv)
+    if what == "delta":
+        return run_delta(case, drv)
     return {"k": [], "mon": [], "tags": ["stats-noop"], "nontrivial": False}
+
+
+def names_of(case, p):
+    return list(case.get("names") or [f"P{j}" for j in range(p)])
+
+
+def lexical(names):
+    return "labels-lexical" if list(names) == sorted(names) else "labels-not-lexical"
+
+
+# ------------------------------------------------------------------ delta method
+
+def to_sympy(e):
+    k = e[0]
+    if k == "s":
+        return sympy.Symbol(e[1])
+    if k == "c":
+        return sympy.Rational(e[1])
+    if k == "^":
+        return to_sympy(e[1]) ** e[2]
+    a = to_sympy(e[1])
+    if k == "sqrt":
+        return sympy.sqrt(a)
+    if k == "log1p":
+        return sympy.log(1 + a)
+    if k == "expm":
+        return sympy.exp(-a / 10)
+    b = to_sympy(e[2])
+    return {"+": a + b, "-": a - b, "*": a * b, "/": a / b}[k]
+
+
+def frac_of(x):
+    """exact sympy number -> Fraction (irrational values to 40 digits)."""
+    if x.is_Rational:
+        return Fraction(int(x.p), int(x.q))
+    return Fraction(str(sympy.N(x, 40)))
+
+
+def fstr(f):
+    return str(f.numerator) if f.denominator == 1 else f"{f.numerator}/{f.denominator}"
+
+
+def run_delta(case, drv):
+    k, mon = [], []
+    names = list(case["names"])
+    p = len(names)
+    expr = to_sympy(case["expr"])
+    syms = sorted((s.name for s in expr.free_symbols))
+    random.Random(case["sym_shuffle"]).shuffle(syms)
+    tags = [f"delta-nsym={len(syms)}", f"delta-p={p}", "delta-" + lexical(names),
+            "delta-index-order-" + ("differs" if case["index_perm"] else "same")]
+    if not syms:
+        return {"k": k, "mon": mon, "tags": tags + ["delta-constant"], "nontrivial": False}
+    # exact covariance  S (L L^T + D) S  from short decimals; the code gets its float image, model and reference that float exactly
+    sc = [Fraction(x) for x in case["scales"]]
+    L = [[Fraction(x) for x in row] for row in case["L"]]
+    cexact = [[sc[i] * (sum(L[i][t] * L[j][t] for t in range(p)) + (Fraction(case["d"][i]) if i == j else 0)) * sc[j]
+               for j in range(p)] for i in range(p)]
+    cfloat = [[float(v) for v in row] for row in cexact]
+    idx = list(range(p)) if not case["index_perm"] else list(case["index_perm"])
+    cov = pd.DataFrame([[cfloat[i][j] for j in range(p)] for i in idx], index=[names[i] for i in idx], columns=names)
+    vals = {nm: float(v) for nm, v in zip(names, case["values"])}
+    values = pd.Series(vals) if case["as_series"] else vals
+    try:
+        se = float(pmath.se_delta_method(expr, values, cov))
+    except Exception as e:
+        mon.append({"cls": "delta-method-raises", "what": f"se_delta_method({expr}) raised {type(e).__name__}: {e}"})
+        return {"k": k, "mon": mon, "tags": tags, "nontrivial": True}
+    # independent exact evaluation of the definition, by label
+    subs = {sympy.Symbol(nm): sympy.Rational(v) for nm, v in zip(names, case["values"])}
+    grad = {nm: frac_of(sympy.diff(expr, sympy.Symbol(nm)).subs(subs)) for nm in syms}
+    C = {(names[i], names[j]): Fraction(cfloat[i][j]) for i in range(p) for j in range(p)}
+    var = sum(grad[a] * C[(a, b)] * grad[b] for a in syms for b in syms)
+    gsorted = sorted(abs(float(g)) for g in grad.values())
+    if len(syms) >= 2 and gsorted[0] != gsorted[-1]:
+        tags.append("delta-asymmetric")
+    terms = max(abs(float(grad[a] * C[(a, b)] * grad[b])) for a in syms for b in syms)
+    tol = 1e-8 * max(float(var), terms)
+    if not abs(se * se - float(var)) <= tol:
+        mon.append({"cls": "delta-method-se", "what": f"se_delta_method({expr}) = {se}; sqrt(grad' Cov grad) evaluated by label = "
+                    f"{math.sqrt(max(0.0, float(var)))} (gradient {{{', '.join(f'{a}: {float(g):.6g}' for a, g in grad.items())}}}, "
+                    f"covariance columns {names}, index {[names[i] for i in idx]})"})
+    if drv is not None:
+        rows = [[names[i], [[names[j], _fr(cfloat[i][j])] for j in range(p)]] for i in idx]
+        ans = drv.ask(["delta", syms, [[a, fstr(g)] for a, g in grad.items()], names, rows])
+        if not isinstance(ans, str) or abs(se * se - float(Fraction(ans))) > tol:
+            k.append(f"se_delta_method^2: model {ans if not isinstance(ans, str) else float(Fraction(ans))} code {se * se}")
+    return {"k": k, "mon": mon, "tags": tags, "nontrivial": len(syms) >= 2}
 
 
 def run_bootstrap(case, drv):
@@ -124,12 +317,25 @@ def run_bootstrap(case, drv):
     cols = [[float(x) for x in col] for col in case["cols"]]
     p, n = len(cols), len(cols[0])
     tags = [f"bootstrap-n={n}", f"bootstrap-p={p}"]
-    names = [f"P{j}" for j in range(p)]
-    results = [ModelfitResults(ofv=float(case["ofvs"][i]), parameter_estimates=pd.Series([cols[j][i] for j in range(p)], index=names))
+    names = names_of(case, p)
+    tags.append("bootstrap-" + lexical(names))
+    rp = case.get("rep_perm") or [None] * n
+    op = case.get("orig_perm") or list(range(p))
+
+    def ser(vals, perm):
+        perm = perm or list(range(p))
+        return pd.Series([vals[j] for j in perm], index=[names[j] for j in perm])
+    if any(rp) or case.get("orig_perm"):
+        tags.append("bootstrap-label-order-varies")
+    results = [ModelfitResults(ofv=float(case["ofvs"][i]), parameter_estimates=ser([cols[j][i] for j in range(p)], rp[i]))
                for i in range(n)]
-    orig = ModelfitResults(ofv=1.0, parameter_estimates=pd.Series([float(x) for x in case["orig"]], index=names))
+    orig = ModelfitResults(ofv=1.0, parameter_estimates=ser([float(x) for x in case["orig"]], op))
     res = boot.calculate_results(None, results, original_results=orig)
     st, dist, cov = res.parameter_statistics, res.parameter_distribution, res.covariance_matrix
+    if sorted(st.index) != sorted(names) or sorted(cov.index) != sorted(names) or list(cov.index) != list(cov.columns):
+        mon.append({"cls": "bootstrap-labels", "what": f"statistics labelled {list(st.index)}, covariance {list(cov.index)} x {list(cov.columns)}; parameters {names}"})
+        return {"k": k, "mon": mon, "tags": tags, "nontrivial": True}
+    cov = cov.loc[names, names]
     arr = np.array(cols)
     for j, nm in enumerate(names):
         scale = max(abs(x) for x in cols[j]) or 1.0
@@ -157,7 +363,7 @@ def run_bootstrap(case, drv):
             pairs = [("mean", st.loc[nm, "mean"], m[0], scale), ("median", st.loc[nm, "median"], m[1], scale),
                      ("bias", st.loc[nm, "bias"], m[2], scale), ("stderr^2", st.loc[nm, "stderr"] ** 2, m[3], scale * scale)]
             if abs(st.loc[nm, "mean"]) > 1e-6 * scale:
-                pairs.append(("RSE^2", st.loc[nm, "RSE"] ** 2, m[4], 0.0))
+                pairs.append(("RSE^2", st.loc[nm, "RSE"] ** 2, m[4], (scale / st.loc[nm, "mean"]) ** 2))
             pairs += [(cname, dist.loc[nm, cname], mv, scale) for cname, mv in zip(DIST_COLS, m[5])]
             for label, cv, mv, sc in pairs:
                 if not same(cv, mv, sc):
@@ -175,7 +381,13 @@ def run_cdd(case, drv):
     cols = [[float(x) for x in col] for col in case["cols"]]
     p, n = len(cols), len(cols[0])
     tags = [f"cdd-n={n}", f"cdd-p={p}", "cdd-cov=" + ("jackknife" if case["use_jack"] else "sample")]
-    names = [f"P{j}" for j in range(p)]
+    names = names_of(case, p)
+    tags.append("cdd-" + lexical(names))
+    bperm = case.get("base_perm") or list(range(p))
+    cperm = case.get("cov_perm") or list(range(p))
+    inconsistent = bperm != list(range(p)) or cperm != list(range(p))
+    if inconsistent:
+        tags.append("cdd-label-orders-differ")
     df = pd.DataFrame({nm: cols[j] for j, nm in enumerate(names)})
     arr = np.array(cols)
     amax = float(np.max(np.abs(arr)))
@@ -185,18 +397,24 @@ def run_cdd(case, drv):
     if not np.allclose(jk.values, refj, rtol=1e-9, atol=1e-9 * amax ** 2):
         mon.append({"cls": "cdd-jackknife", "what": f"jackknife covariance {jk.values.tolist()}, definition (N-1)/N sum dd^T gives {refj.tolist()}"})
     covm = jk if case["use_jack"] else df.cov()
-    base = pd.Series([float(x) for x in case["base"]], index=names)
-    cooks = cdd.compute_cook_scores(base, df, covm)
+    if list(jk.index) != names or list(jk.columns) != names:
+        mon.append({"cls": "cdd-jackknife-labels", "what": f"jackknife matrix labelled {list(jk.index)} x {list(jk.columns)}, parameters {names}"})
+    base = pd.Series([float(case["base"][j]) for j in bperm], index=[names[j] for j in bperm])
+    cov_given = covm.loc[[names[j] for j in cperm], [names[j] for j in cperm]]
+    cooks = cdd.compute_cook_scores(base, df, cov_given)
     try:
         inv = np.linalg.inv(covm.values)
         posdef = bool(np.all(np.linalg.eigvalsh(covm.values) > 1e-9 * amax ** 2))
     except np.linalg.LinAlgError:
         inv, posdef = None, False
     if posdef:
-        delta = (arr.T - base.values)
+        delta = (arr.T - base[names].values)          # by label
         refc = [math.sqrt(max(0.0, float(r @ inv @ r))) for r in delta]
         if cooks is None or not np.allclose(cooks, refc, rtol=1e-8, atol=1e-9):
-            mon.append({"cls": "cdd-cook-score", "what": f"cook scores {cooks}, sqrt(d cov^-1 d^T) gives {refc}"})
+            # decidable witness class: the three labelled inputs do not list the parameters in the same order
+            cls = "cook-scores-label-order" if inconsistent else "cdd-cook-score"
+            mon.append({"cls": cls, "what": f"cook scores {cooks}, sqrt(d cov^-1 d^T) evaluated by label gives {refc} "
+                        f"(estimate columns {names}, base estimate labels {list(base.index)}, covariance labels {list(cov_given.index)})"})
     else:
         tags.append("cdd-cov-not-posdef")
     # covariance ratios: covariance of the data with one replicate left out, against the full one
@@ -223,8 +441,8 @@ def run_cdd(case, drv):
                     k.append(f"jackknife[{a}][{b}]: model {float(Fraction(ans[a][b]))} code {jk.values[a][b]}")
         if posdef and cooks is not None:
             # the model gets the covariance matrix the code used, as exact rationals of its floats
-            wm = [[_fr(v) for v in row] for row in covm.values.tolist()]
-            ansc = drv.ask(["cook2", [dq(x) for x in case["base"]], wcols, wm])
+            wm = [[_fr(v) for v in row] for row in cov_given.values.tolist()]
+            ansc = drv.ask(["cook2l", names, wcols, [names[j] for j in bperm], [dq(case["base"][j]) for j in bperm], wm])
             for i, (cv, mv) in enumerate(zip(cooks, ansc)):
                 if mv == "singular" or not same(float(cv) ** 2, mv, 1e-3):
                     k.append(f"cook score^2 of replicate {i}: model {mv} code {float(cv) ** 2}")
@@ -247,35 +465,61 @@ def run_shrink(case, drv):
     n = len(etas[0])
     tags = [f"shrink-n={n}"]
     om = [float(x) for x in case["omegas"]]
-    pe = pd.Series({"IIV_CL": om[0], "IIV_VC": om[1]})
+    pe = pd.Series({"IIV_VC": om[1], "IIV_CL": om[0]}) if case.get("pe_swap") else pd.Series({"IIV_CL": om[0], "IIV_VC": om[1]})
     ie = pd.DataFrame({"ETA_CL": etas[0], "ETA_VC": etas[1]}, index=list(range(1, n + 1)))
+    ie_swap = bool(case.get("ie_swap"))
+    if ie_swap:
+        ie = ie[["ETA_VC", "ETA_CL"]]
+        tags.append("shrink-ie-columns-swapped")
+    ie_cols = list(ie.columns)
     sh = mres.calculate_eta_shrinkage(PHENO, pe, ie)
     shsd = mres.calculate_eta_shrinkage(PHENO, pe, ie, sd=True)
     for j, nm in enumerate(["ETA_CL", "ETA_VC"]):
         v = float(np.var(etas[j], ddof=1))
+        # decidable witness class: the columns of individual_estimates are not in the model's eta order
+        sfx = "-column-order" if ie_swap else ""
         if not abs(sh[nm] - (1 - v / om[j])) <= 1e-9 * max(1.0, abs(v / om[j])):
-            mon.append({"cls": "eta-shrinkage", "what": f"{nm}: {sh[nm]}, definition 1 - var/omega = {1 - v / om[j]}"})
+            mon.append({"cls": "eta-shrinkage" + sfx, "what": f"{nm}: {sh[nm]}, definition 1 - var({nm})/omega = {1 - v / om[j]} "
+                        f"(individual_estimates columns {ie_cols})"})
+            break
         if not abs(shsd[nm] - (1 - math.sqrt(v) / math.sqrt(om[j]))) <= 1e-9 * max(1.0, math.sqrt(v / om[j])):
-            mon.append({"cls": "eta-shrinkage-sd", "what": f"{nm}: {shsd[nm]}, definition 1 - sd/sqrt(omega) = {1 - math.sqrt(v / om[j])}"})
+            mon.append({"cls": "eta-shrinkage-sd" + sfx, "what": f"{nm}: {shsd[nm]}, definition 1 - sd/sqrt(omega) = {1 - math.sqrt(v / om[j])}"})
+            break
     idx = list(range(1, len(case["icov"]) + 1))
     mats = []
-    for a, b, c in case["icov"]:
-        mats.append(pd.DataFrame([[float(a), float(c)], [float(c), float(b)]], index=["ETA_CL", "ETA_VC"], columns=["ETA_CL", "ETA_VC"]))
+    swaps = list(case.get("icov_swap") or [False] * len(case["icov"]))
+    for (a, b, c), sw in zip(case["icov"], swaps):
+        m = pd.DataFrame([[float(a), float(c)], [float(c), float(b)]], index=["ETA_CL", "ETA_VC"], columns=["ETA_CL", "ETA_VC"])
+        if sw:
+            m = m.loc[["ETA_VC", "ETA_CL"], ["ETA_VC", "ETA_CL"]]
+        mats.append(m)
+    if any(swaps):
+        tags.append("shrink-icov-labels-swapped")
     ish = mres.calculate_individual_shrinkage(PHENO, pe, pd.Series(mats, index=idx))
-    for i, (a, b, c) in zip(idx, case["icov"]):
+    for i, (a, b, c), sw in zip(idx, case["icov"], swaps):
         for nm, dv, o in (("ETA_CL", float(a), om[0]), ("ETA_VC", float(b), om[1])):
-            if not abs(ish.loc[i, nm] - dv / o) <= 1e-9 * abs(dv / o):
-                mon.append({"cls": "individual-shrinkage", "what": f"individual {i} {nm}: {ish.loc[i, nm]}, definition var/omega = {dv / o}"})
+            got = ish.loc[i, nm] if nm in ish.columns else float("nan")
+            if not abs(got - dv / o) <= 1e-9 * abs(dv / o):
+                # decidable witness class: some individual's matrix is labelled in another order than the model's etas
+                cls = "individual-shrinkage-label-order" if any(swaps) else "individual-shrinkage"
+                mon.append({"cls": cls, "what": f"individual {i} {nm}: {got}, definition var_i({nm})/omega = {dv / o} "
+                            f"(matrix labels {list(mats[i - 1].index)})"})
+                break
+        else:
+            continue
+        break
     if drv is not None:
-        ans = drv.ask(["shrinkage", [[dq(x) for x in col] for col in case["etas"]], [dq(x) for x in case["omegas"]]])
-        for j, nm in enumerate(["ETA_CL", "ETA_VC"]):
+        order = [1, 0] if ie_swap else [0, 1]
+        ans = drv.ask(["shrinkage", [[dq(x) for x in case["etas"][j]] for j in order], [dq(x) for x in case["omegas"]]])
+        for j, nm in enumerate(ie_cols):
             if not same(sh[nm], ans[j], 1.0):
                 k.append(f"eta shrinkage {nm}: model {float(Fraction(ans[j]))} code {sh[nm]}")
             if not same((1 - shsd[nm]) ** 2, str(1 - Fraction(ans[j])), 1.0):
                 k.append(f"eta shrinkage (sd) {nm}: model (1-s)^2 {float(1 - Fraction(ans[j]))} code {(1 - shsd[nm]) ** 2}")
-        ansi = drv.ask(["ishrinkage", [[dq(a), dq(b)] for a, b, _ in case["icov"]], [dq(x) for x in case["omegas"]]])
+        ansi = drv.ask(["ishrinkage", [[dq(b), dq(a)] if sw else [dq(a), dq(b)] for (a, b, _), sw in zip(case["icov"], swaps)],
+                        [dq(x) for x in case["omegas"]]])
         for r, (i, row) in enumerate(zip(idx, ansi)):
-            for nm, mv in zip(["ETA_CL", "ETA_VC"], row):
+            for nm, mv in zip(list(mats[r].index), row):
                 if not same(ish.loc[i, nm], mv, 0.0):
                     k.append(f"individual shrinkage {i} {nm}: model {float(Fraction(mv))} code {ish.loc[i, nm]}")
     return {"k": k, "mon": mon, "tags": tags, "nontrivial": n >= 3}
